@@ -25,7 +25,7 @@ def demo_dest(meta, src):
     cmd = meta.get("demo_cmd", "")
     m = re.search(r"mut_demo_test\.go\s+(\S+)", cmd)
     dest = m.group(1) if m else "."
-    dest = re.sub(r"^(<worktree>|/tmp/mut/C\d+-wt)/?", "", dest)
+    dest = re.sub(r"^(<worktree>|/tmp/mut/C\d+[a-z]?-wt)/?", "", dest)
     if dest.endswith(".go"):
         dest = os.path.dirname(dest)
     dest = dest.strip("/") or "."
